@@ -1348,7 +1348,7 @@ func (p *Printer) command(cmd Command, redirs []*Redirect) (startRedirs int) {
 
 			p.nestedStmts(ci.Stmts, ci.Last, ci.OpPos)
 			p.level++
-			if !p.minify || i != len(cmd.Items)-1 {
+			if !p.minify || i != len(cmd.Items)-1 || ci.Op != Break {
 				if p.wantsNewline(ci.OpPos, false) {
 					p.newlines(ci.OpPos)
 					p.wantNewline = true
